@@ -17,7 +17,7 @@ ASSUMPTIONS = ["values of a, b: unbounded symbolic ints; values of the untyped p
                "(1, True, 1.0, NaN, strings, None, nested containers, date vs datetime, object(), equal sets with different iteration order)",
                "programs with a queued assigning callback are compared as call multisets plus the never-dispatched-while-running "
                "constraint (the statement fixes no total order there)"]
-OPS = (D.SET_A, D.SET_B, D.SET_U, D.UNWATCH, D.TRIGGER_A, D.SET_SLOT, D.UPDATE)
+OPS = (D.SET_A, D.SET_B, D.SET_U, D.UNWATCH, D.TRIGGER_A, D.SET_SLOT, D.UPDATE, D.UPDATE_AE)
 
 
 def prog(k: int, nw: int, level: int, selfun: bool, act: bool,
